@@ -21,6 +21,7 @@ EXPLANATION = (
     "stores False into solved and an issue formatted with the threshold, the keeping branch stores nothing but the confidence; (H5) "
     "Balancer.confidence_threshold is consumed only as the threshold argument of predict (and by the cache-key helper); the benchmark "
     "command applies the same >= to the same column."
+    ' (H6) every object that is given a confidence is also a target of the demotion store; (H7) neither the predict call in __run_pipeline nor the per-row loop in predict is enclosed by a handler that continues, so no row leaves solved and unscored.'
 )
 ASSUMPTIONS = ["confidence in [0,1] is a property of the xgboost model output (not decided)"]
 
